@@ -28,7 +28,7 @@ func init() {
 			}},
 		},
 		Meta: eng.PropMeta{
-			Explanation: "The versioned (time-travel) read path replays history with its own traversal; it must agree with the merge path's traversal (sibling implementations). Decided: (WALK-PARTITION) VersionedFetcher.seekNext ranges over every parent (Heads) with the queueing flag set and over the field links with the flag clear; VersionedFetcher.merge recurses into field links only (parents come from the queue exactly once) — the same partition as merge.go; (VF-ISOLATED) the replay writes only into the fetcher's private transient store: ProcessBlock runs with a context whose transaction is that store, every CRDT is constructed on it, block copies go to it, and the request's own transaction is only read; (VF-SAME-MERGE) the replay applies blocks through the same coreblock.ProcessBlock / CRDT constructors as the live merge path; (SUB-CID) subscriptions evaluate at the cid and docID of the received event; (ACP-PLUMB) the ACP handle and identity reach the inner fetcher unchanged.",
+			Explanation: "The versioned (time-travel) read path replays history with its own traversal; it must agree with the merge path's traversal (sibling implementations). Decided: (WALK-PARTITION) VersionedFetcher.seekNext ranges over every parent (Heads) with the queueing flag set and over the field links with the flag clear; VersionedFetcher.merge recurses into field links only (parents come from the queue exactly once) — the same partition as merge.go; (VF-ISOLATED) the replay writes only into the fetcher's private transient store: ProcessBlock runs with a context whose transaction is that store, every CRDT is constructed on it, block copies go to it, and the request's own transaction is only read; (VF-SAME-MERGE) the replay applies blocks through the same coreblock.ProcessBlock / CRDT constructors as the live merge path; (SUB-CID) subscriptions evaluate at the cid and docID of the received event; (ACP-PLUMB) the ACP handle and identity reach the inner fetcher unchanged. (WALK-PARTITION, parents-before-links) seekNext walks a commit's parents before its field links; (CID-PLUMB) selectNode.initSource hands exactly the request's cid option to scanNode.initFetcher and initFetcher installs the VersionedFetcher exactly when it has a value (2-cell table); (VF-NO-INDEX) the document fetcher that reads the transient store back is initialised without a secondary index; (SUB-CID) the select built from the update event is run as built — no field of it is assigned between ToSelect and RunSelection.",
 			NotDecided:  "equality of the replayed state with the historical query result for every history and CRDT kind (e.g. the order in which queued commits of concurrent branches are applied); behaviour at delete commits",
 		},
 	})
